@@ -11,7 +11,7 @@ from ..terms import A, C, F, V, call, conj, TRUE, CUT, show_program, show_term
 ID = 'C08'
 LEVEL = 'model_checking'
 RULE = ('every history of depth <= D over 26 events (load of a script S9 that defines predicates named like API functions; load of a self-recursive predicate S7 whose base case comes from another script S8 or from a dynamic fact; 17 + start / step / close of a call p(X) that stays suspended across the other events and must keep the resolution it had when it was made), from the empty engine and from 4 non-initial states (combined definitions, a Python predicate plus a script, facts between two loads, the recursive script), plus a 12-event core one step deeper, plus the full alphabet from the empty engine with every script loaded through load_script_from_file from ONE path that is rewritten before each load, plus the full alphabet (from the state Python p/1 + S1) with every Python predicate registered as a callable OBJECT that is false in a boolean context, plus the full alphabet from the empty engine in a process that turns warnings into errors: register_function for p with inferred / explicit (p/2) / variadic '
-        'arity and for q/1; load of script S1 (p/1 facts), S2 (p/1 with a cut in its first clause), S3 (p/2 and q(X) :- '
+        'arity and for q/1; (plus the ORDER family: 0..2 facts x 4 shapes of definition - generator function, plain function returning an iterator, plain function returning a generator, callable object - x 5 effects of calling it x 3 registrations x 3 ways of asking x 3 ways of consuming x bound/unbound argument: the facts are answered before the definition is started, a call closed after a fact answer never starts it) load of script S1 (p/1 facts), S2 (p/1 with a cut in its first clause), S3 (p/2 and q(X) :- '
         'p(X)), S6 (names that collide with context keys: once_1/0, once_1/1, p_n/1, call_n/0, foo_1/0 next to foo/1) each '
         'with overwrite on and off; load of a text that is not Python (S4) and of a text that defines p_1 and q_1 and then '
         'raises (S5); assert_fact p(x) and p(x,y); clear. Replayed on a fresh engine with a list-of-definitions model '
@@ -333,6 +333,141 @@ def run_history(hist, texts):
     return ('ok', states, steps, any(any(t) for t in states))
 
 
+# ---- order of effects: the facts are answered BEFORE a definition is started -------------------------
+# A definition need not be a generator function: a plain function (or a callable object) does its work
+# when it is CALLED and returns a cursor over its answers.  What it does when called (here: log the
+# start; assert / retract facts of the called predicate or of another one) is then observable, and the
+# property fixes when that happens: after the facts that existed when the call was made have been answered.
+ORDER_SHAPES = ['generator', 'plain-function-returning-iterator', 'plain-function-returning-generator', 'callable-object']
+ORDER_EFFECTS = ['none', 'assertz-own', 'asserta-own', 'retractall-own', 'assertz-other']
+ORDER_REG = [('inferred', None), ('explicit', 1), ('variadic', -1)]
+ORDER_VIA = ['api', 'script', 'call/1']
+ORDER_CONSUME = ['all', 'first-answer-then-close', 'twice']
+ORDER_CALLER = [(F('c', X), call(F('p', X)))]
+
+
+def order_cases():
+    return list(itertools.product(range(3), range(len(ORDER_SHAPES)), range(len(ORDER_EFFECTS)), range(len(ORDER_REG)), range(len(ORDER_VIA)), range(len(ORDER_CONSUME)), (0, 1)))
+
+
+def order_case(case, caller_text):
+    """-> ('ok', log) | ('violation', sig, detail)"""
+    nfacts, shi, efi, rgi, vii, coi, bound = case
+    shape, effect, (regname, arity), via, consume = ORDER_SHAPES[shi], ORDER_EFFECTS[efi], ORDER_REG[rgi], ORDER_VIA[vii], ORDER_CONSUME[coi]
+    yp = impl.YP()
+    log = []
+    marker_atom = yp.atom('from_definition')
+
+    def answers(arg1):
+        for _ in impl.engine.unify(arg1, marker_atom):
+            yield False
+
+    def started():
+        log.append('definition started')
+        if effect == 'assertz-own':
+            yp.assert_fact(yp.atom('p'), [yp.atom('added')])
+        elif effect == 'asserta-own':
+            for _ in yp.query('asserta', [yp.functor('p', [yp.atom('added')])]):
+                pass
+        elif effect == 'retractall-own':
+            for _ in yp.query('retractall', [yp.functor('p', [yp.variable()])]):
+                pass
+        elif effect == 'assertz-other':
+            yp.assert_fact(yp.atom('other'), [yp.atom('added')])
+
+    binds = shape != 'plain-function-returning-iterator'
+    if shape == 'generator':
+        def body(arg1):
+            started()
+            yield from answers(arg1)
+    elif shape == 'plain-function-returning-iterator':
+        def body(arg1):
+            started()
+            return iter([False])        # one answer that binds nothing
+    else:
+        def body(arg1):
+            started()
+            return answers(arg1)
+    if shape == 'callable-object':
+        if arity == -1:
+            class Obj:
+                def __call__(self, *args):
+                    return body(*args)
+        else:
+            class Obj:
+                def __call__(self, arg1):
+                    return body(arg1)
+        fn = Obj()
+    elif arity == -1:
+        if shape == 'generator':
+            def fn(*args):
+                started()
+                yield from answers(args[0])
+        else:
+            def fn(*args):
+                return body(*args)
+    else:
+        fn = body
+    if arity is None:
+        yp.register_function('p', fn)
+    else:
+        yp.register_function('p', fn, arity)
+    yp.load_script_from_string(caller_text, overwrite=False)
+    cur = ['f%d' % i for i in range(nfacts)]
+    for f in cur:
+        yp.assert_fact(yp.atom('p'), [yp.atom(f)])
+
+    def after_effect(fs):
+        if effect == 'assertz-own':
+            return fs + ['added']
+        if effect == 'asserta-own':
+            return ['added'] + fs
+        if effect == 'retractall-own':
+            return []
+        return fs
+
+    def name_of(arg):
+        v = impl.engine.get_value(arg)
+        return '_' if isinstance(v, impl.Variable) else v.name()
+
+    want = []
+    for _round in range(2 if consume == 'twice' else 1):
+        arg = yp.atom('f0') if bound else yp.variable()
+        if via == 'api':
+            q = yp.query('p', [arg])
+        elif via == 'script':
+            q = yp.query('c', [arg])
+        else:
+            q = yp.query('call', [yp.functor('p', [arg])])
+        matching = [f for f in cur if not bound or f == 'f0']
+        from_def = ['definition started'] + (['answer ' + ('from_definition' if binds else name_of(arg))] if (not bound or not binds) else [])
+        if consume == 'first-answer-then-close':
+            it = iter(q)
+            try:
+                next(it)
+                log.append('answer ' + name_of(arg))
+            except StopIteration:
+                pass
+            it.close()
+            if matching:
+                want += ['answer ' + matching[0]]       # the definition is never started
+            else:
+                want += from_def
+                cur = after_effect(cur)
+        else:
+            for _a in q:
+                log.append('answer ' + name_of(arg))
+            want += ['answer ' + f for f in matching] + from_def
+            cur = after_effect(cur)
+    desc = ('%d fact(s) p(f0).. asserted; p/1 registered (%s arity) as a %s whose call has the effect %r; p(%s) asked through %s, consumed: %s'
+            % (nfacts, regname, shape, effect, 'f0' if bound else 'X', via, consume))
+    if log != want:
+        early = 'definition started' in log and 'definition started' in want and log.index('definition started') < want.index('definition started')
+        sig = 'order:definition-started-before-the-facts-were-answered' if early else 'order:definition-started-although-never-reached' if 'definition started' in log and 'definition started' not in want else 'order:events-differ'
+        return ('violation', sig, '%s\nevents observed: %s\nevents expected: %s\n(the facts that exist when the call is made are answered in order, and only then is the definition started)' % (desc, log, want))
+    return ('ok', tuple(log))
+
+
 def compile_scripts():
     return {k: compile_cached(show_program(v)) for k, v in SCRIPTS.items()}
 
@@ -349,11 +484,28 @@ def plan(tier):
     sh += [(d, k, n, 0, 'all-file') for k in range(n)]
     sh += [(d, k, n, 2, 'all-objects') for k in range(n)]
     sh += [(d, k, n, 0, 'all-warnings-are-errors') for k in range(n)]
+    sh += [(0, k, 4, 0, 'order') for k in range(4)]
     return sh
 
 
 def run_shard(spec):
     global LOAD_PATH
+    if spec[4] == 'order':
+        acc = Acc()
+        caller = compile_cached(show_program(ORDER_CALLER))
+        for idx, case in enumerate(order_cases()):
+            if idx % spec[2] != spec[1]:
+                continue
+            acc.n['evaluations'] += 1
+            acc.n['validated'] += 1
+            acc.n['nontrivial'] += 1
+            r = order_case(case, caller)
+            if r[0] == 'violation':
+                acc.violation(r[1], (0, 9, idx), {'order_case': list(case)}, r[2], key='order' + str(list(case)))
+                continue
+            acc.n['transitions'] += len(r[1]) + 2
+            acc.outcome(r[1])
+        return acc
     if spec[4] == 'all-warnings-are-errors':
         # the process runs with warnings turned into errors (python -W error, pytest filterwarnings=error):
         # nothing the engine does on these histories is worth a warning, an unknown predicate simply fails
@@ -426,6 +578,9 @@ def _run_shard(spec, via=None):
 
 def replay(case):
     global LOAD_PATH
+    if 'order_case' in case:
+        r = order_case(tuple(case['order_case']), compile_cached(show_program(ORDER_CALLER)))
+        return [(r[1], r[2])] if r[0] == 'violation' else []
     if case.get('via') == 'warnings':
         import warnings
         with warnings.catch_warnings():
